@@ -23,11 +23,12 @@ func genInts(rng *rand.Rand, _ []any) any {
 		return []int{}
 	}
 
-	n := rng.Intn(12)
+	// up to 60 elements with many equal keys: Go's sort changes algorithm at 12 elements
+	n := rng.Intn(60)
 	out := make([]int, n)
 
 	for i := range out {
-		if rng.Intn(3) == 0 {
+		if rng.Intn(5) == 0 {
 			out[i] = int(boundaryInts[rng.Intn(len(boundaryInts))])
 		} else {
 			out[i] = rng.Intn(9) - 4 // many duplicates
@@ -64,11 +65,11 @@ func genFloat64s(rng *rand.Rand, _ []any) any {
 		return []float64{}
 	}
 
-	n := rng.Intn(12)
+	n := rng.Intn(60)
 	out := make([]float64, n)
 
 	for i := range out {
-		if rng.Intn(2) == 0 {
+		if rng.Intn(4) == 0 {
 			out[i] = boundaryFloats[rng.Intn(len(boundaryFloats))]
 		} else {
 			out[i] = float64(rng.Intn(9) - 4)
@@ -90,11 +91,15 @@ func genFloat32s(rng *rand.Rand, p []any) any {
 }
 
 func genBytes(rng *rand.Rand, _ []any) any {
-	n := rng.Intn(12)
+	n := rng.Intn(60)
 	out := make([]byte, n)
 
 	for i := range out {
-		out[i] = byte(rng.Intn(256))
+		if rng.Intn(3) == 0 {
+			out[i] = byte(rng.Intn(256))
+		} else {
+			out[i] = byte(rng.Intn(5)) // many equal keys
+		}
 	}
 
 	return out
@@ -106,8 +111,119 @@ func genStringsNonNil(rng *rand.Rand, p []any) any {
 		return []string{}
 	}
 
+	// half of the time a long array drawn from few distinct words (equal keys, more than 12 elements)
+	if rng.Intn(2) == 0 {
+		n := 13 + rng.Intn(40)
+		s = make([]string, n)
+
+		for i := range s {
+			s[i] = words[rng.Intn(8)]
+		}
+	}
+
 	return s
 }
+
+// ---- enumerated domains (the same in both tiers) ----
+
+// base64Pattern is a fixed byte pattern that visits every byte value; its prefixes of length 0..64 are enumerated.
+func base64Pattern(n int) string {
+	b := make([]byte, n)
+	for i := range b {
+		b[i] = byte(i*37 + 251)
+	}
+
+	return string(b)
+}
+
+func base64Directed(encode bool) [][]any {
+	var out [][]any
+
+	for n := 0; n <= 64; n++ {
+		for _, fill := range []func(int) string{base64Pattern, func(k int) string { return strings.Repeat("\xff", k) }, func(k int) string { return strings.Repeat("\x00", k) }} {
+			p := fill(n)
+			if encode {
+				out = append(out, []any{p})
+			} else {
+				out = append(out, []any{base64.StdEncoding.EncodeToString([]byte(p))})
+			}
+		}
+	}
+
+	return out
+}
+
+func romanDirected(f func(n int) any) [][]any {
+	out := make([][]any, 0, 3999)
+	for n := 1; n <= 3999; n++ {
+		out = append(out, []any{f(n)})
+	}
+
+	return out
+}
+
+// intBoundaries: the values around every power-of-two boundary an integer conversion can trip over
+func intBoundaries() []int64 {
+	out := []int64{0, 1, -1, 2, -2, 9, 10, 11, 35, 36, 37, 99, 100, 101}
+	for _, b := range []uint{7, 8, 15, 16, 31, 32, 53, 62} {
+		v := int64(1) << b
+		out = append(out, v-1, v, v+1, -v+1, -v, -v-1)
+	}
+
+	return append(out, math.MaxInt64, math.MaxInt64-1, math.MinInt64, math.MinInt64+1)
+}
+
+func baseDirected() [][]any {
+	var out [][]any
+
+	for base := 2; base <= 36; base++ {
+		for _, v := range intBoundaries() {
+			out = append(out, []any{v, base})
+		}
+
+		out = append(out, []any{int64(base), base}, []any{int64(base - 1), base}, []any{int64(-base), base}, []any{int64(base) * int64(base), base})
+	}
+
+	return out
+}
+
+func ubaseDirected() [][]any {
+	var out [][]any
+
+	for base := 2; base <= 36; base++ {
+		for _, v := range intBoundaries() {
+			out = append(out, []any{uint64(v), base})
+		}
+	}
+
+	return out
+}
+
+func wrap1[T any](vals []T) [][]any {
+	out := make([][]any, len(vals))
+	for i, v := range vals {
+		out[i] = []any{v}
+	}
+
+	return out
+}
+
+func intsOf[T int | int8 | int16 | int32 | int64 | uint8](lo, hi int64) []T {
+	var out []T
+
+	for _, v := range intBoundaries() {
+		if v >= lo && v <= hi {
+			out = append(out, T(v))
+		}
+	}
+
+	return out
+}
+
+var floatBoundaries = []float64{0, math.Copysign(0, -1), 1, -1, 0.1, 0.5, 1e-7, 1e-6, 1e20, 1e21, 1e22, -1e21, 123456789.125, float64(1 << 53), float64(1<<53) + 2, math.MaxInt64, math.MaxFloat32,
+	math.SmallestNonzeroFloat32, math.MaxFloat64, -math.MaxFloat64, math.SmallestNonzeroFloat64, 2.2250738585072014e-308, 1.7976931348623157e308, 5e-324, math.Pi, math.NaN(), math.Inf(1), math.Inf(-1)}
+
+var stringBoundaries = []string{"", " ", "a", "\x00", "\t\n\r", "\"", "\\", "/", "<>&", "\u2028\u2029", "é", "😀", "\xff", "a\xc0\xafb", "\xed\xa0\x80", "\u007f", "\ufffd", "null", "true", "1", strings.Repeat("x", 300)}
 
 func sortedCopy[T any](x []T, f func([]T)) []T {
 	c := append([]T{}, x...)
@@ -343,7 +459,19 @@ func customRows() []row {
 		case "sort.Int64s":
 			intsRows[i].Directed = [][]any{{[]int64{3, math.MinInt64, math.MaxInt64, -1}}}
 		case "sort.Ints":
-			intsRows[i].Directed = [][]any{{[]int{3, math.MinInt64, math.MaxInt64, -1}}}
+			long := make([]int, 100)
+			for k := range long {
+				long[k] = (k * 7) % 3
+			}
+
+			intsRows[i].Directed = [][]any{{[]int{3, math.MinInt64, math.MaxInt64, -1}}, {long}, {[]int{5, 4, 3, 2, 1, 0, 5, 4, 3, 2, 1, 0, 5}}}
+		case "sort.Strings":
+			long := make([]string, 64)
+			for k := range long {
+				long[k] = []string{"b", "a", "", "é"}[(k*5)%4]
+			}
+
+			intsRows[i].Directed = [][]any{{long}}
 		case "sort.Float64s":
 			intsRows[i].Directed = [][]any{{[]float64{1, math.NaN(), math.Inf(-1), math.Copysign(0, -1), 0}}}
 		}
@@ -395,7 +523,7 @@ func customRows() []row {
 		row{Name: "sort.IsSorted/string", Snippet: "r0, r1 := sort.IsSorted(a0)", NRet: 2, Go: func(x []string) (bool, error) { return sort.StringsAreSorted(x), nil }, Gens: []gen{genStringsNonNil}},
 
 		// ---- base64 ----
-		row{Name: "base64.Encode", Go: func(s string) string { return base64.StdEncoding.EncodeToString([]byte(s)) }},
+		row{Name: "base64.Encode", Go: func(s string) string { return base64.StdEncoding.EncodeToString([]byte(s)) }, Directed: base64Directed(true)},
 		row{Name: "base64.Decode", IgnoreErrValue: true, Go: func(s string) (string, error) { b, err := base64.StdEncoding.DecodeString(s); return string(b), err },
 			Gens: []gen{func(rng *rand.Rand, p []any) any {
 				s := base64.StdEncoding.EncodeToString([]byte(randString(rng)))
@@ -415,15 +543,40 @@ func customRows() []row {
 
 				return s
 			}}},
-		row{Name: "base64.Decode/roundtrip", Snippet: "e := base64.Encode(a0)\nr0, r1 := base64.Decode(e)", NRet: 2, Go: func(s string) (string, error) { return s, nil }},
+		row{Name: "base64.Decode/roundtrip", Snippet: "e := base64.Encode(a0)\nr0, r1 := base64.Decode(e)", NRet: 2, Go: func(s string) (string, error) { return s, nil }, Directed: base64Directed(true)},
+		row{Name: "base64.Decode/valid", Snippet: "r0, r1 := base64.Decode(a0)", NRet: 2, Directed: base64Directed(false),
+			Go:   func(s string) (string, error) { b, err := base64.StdEncoding.DecodeString(s); return string(b), err },
+			Gens: []gen{func(rng *rand.Rand, _ []any) any { return base64.StdEncoding.EncodeToString([]byte(randString(rng))) }}},
 
 		// ---- Roman numerals: documented Ego additions; the documented round trip is checked ----
-		row{Name: "strconv.Itor/roundtrip", Snippet: "s, e := strconv.Itor(a0)\nr0, r1 := strconv.Rtoi(s)\nr2 := e", NRet: 3, Gens: []gen{intRange(1, 3999)},
-			Go: func(n int) (int, error, error) { return n, nil, nil }},
+		// every n in 1..3999, in both tiers: Rtoi(Itor(n)) == n, and Itor(n) is the canonical numeral
+		row{Name: "strconv.Itor/roundtrip", Snippet: "s, e := strconv.Itor(a0)\nr0, r1 := strconv.Rtoi(s)\nr2 := e\nr3 := s", NRet: 4, Gens: []gen{intRange(1, 3999)},
+			Directed: romanDirected(func(n int) any { return n }),
+			Go:       func(n int) (int, error, error, string) { return n, nil, nil, roman(n) }},
+		// documented: case-insensitive, surrounding white space ignored
+		row{Name: "strconv.Rtoi/lowercase-padded", Snippet: "r0, r1 := strconv.Rtoi(a0)", NRet: 2,
+			Directed: romanDirected(func(n int) any { return " " + strings.ToLower(roman(n)) + "\t" }),
+			Gens:     []gen{func(rng *rand.Rand, _ []any) any { return strings.ToLower(roman(1 + rng.Intn(3999))) }},
+			Go: func(s string) (int, error) {
+				return unroman(strings.ToUpper(strings.TrimSpace(s))), nil
+			}},
+		// documented: empty or all-blank text gives 0 and no error; text that is not a numeral gives an error
+		row{Name: "strconv.Rtoi/edges", Snippet: "r0, r1 := strconv.Rtoi(a0)", NRet: 2, IgnoreErrValue: true,
+			Directed: [][]any{{""}, {" "}, {"\t \n"}, {"ABC"}, {"12"}, {"M M"}, {"Z"}, {"-X"}},
+			Gens:     []gen{oneOf("", "  ", "ABC", "X1", "Q", "1994", "mcmxciv!", "é")},
+			Go: func(s string) (int, error) {
+				if strings.TrimSpace(s) == "" {
+					return 0, nil
+				}
+
+				return 0, fmt.Errorf("not a numeral")
+			}},
 		row{Name: "strconv.Rtoi/canonical", Snippet: "n, e := strconv.Rtoi(a0)\nr0, r1 := strconv.Itor(n)\nr2 := e", NRet: 3,
-			Gens: []gen{func(rng *rand.Rand, _ []any) any { return roman(1 + rng.Intn(3999)) }},
-			Go:   func(s string) (string, error, error) { return s, nil, nil }},
+			Directed: romanDirected(func(n int) any { return roman(n) }),
+			Gens:     []gen{func(rng *rand.Rand, _ []any) any { return roman(1 + rng.Intn(3999)) }},
+			Go:       func(s string) (string, error, error) { return s, nil, nil }},
 		row{Name: "strconv.Itor/range", Snippet: "r0, r1 := strconv.Itor(a0)", NRet: 2, IgnoreErrValue: true,
+			Directed: [][]any{{0}, {4000}, {-1}, {1}, {3999}, {4001}, {math.MaxInt64}, {math.MinInt64}, {-3999}},
 			Gens: []gen{func(rng *rand.Rand, _ []any) any {
 				return []int{0, -1, 4000, 3999, 1, 4001, math.MaxInt64, math.MinInt64, 2024, 49, 944}[rng.Intn(11)]
 			}},
@@ -434,6 +587,57 @@ func customRows() []row {
 
 				return roman(n), nil
 			}},
+
+		// ---- integer <-> text in every base 2..36 at the width boundaries (enumerated, both tiers) ----
+		row{Name: "strconv.FormatInt/roundtrip", Snippet: "s := strconv.FormatInt(a0, a1)\nr0, r1 := strconv.ParseInt(s, a1, 64)\nr2 := s\nr3, r4 := strconv.ParseInt(s, a1, 32)", NRet: 5, IgnoreErrValue: false,
+			Directed: baseDirected(), Gens: []gen{genInt64, intRange(2, 36)},
+			Go: func(v int64, base int) (int64, error, string, int64, error) {
+				s := strconv.FormatInt(v, base)
+				a, e := strconv.ParseInt(s, base, 64)
+				b, e2 := strconv.ParseInt(s, base, 32)
+
+				return a, e, s, b, e2
+			}},
+		row{Name: "strconv.FormatUint/roundtrip", Snippet: "s := strconv.FormatUint(a0, a1)\nr0, r1 := strconv.ParseUint(s, a1, 64)\nr2 := s\nr3, r4 := strconv.ParseUint(s, a1, 32)", NRet: 5,
+			Directed: ubaseDirected(), Gens: []gen{genUint64, intRange(2, 36)},
+			Go: func(v uint64, base int) (uint64, error, string, uint64, error) {
+				s := strconv.FormatUint(v, base)
+				a, e := strconv.ParseUint(s, base, 64)
+				b, e2 := strconv.ParseUint(s, base, 32)
+
+				return a, e, s, b, e2
+			}},
+		row{Name: "strconv.Itoa/roundtrip", Snippet: "s := strconv.Itoa(a0)\nr0, r1 := strconv.Atoi(s)\nr2 := s", NRet: 3,
+			Directed: wrap1(intsOf[int](math.MinInt64, math.MaxInt64)), Gens: []gen{genInt},
+			Go: func(v int) (int, error, string) {
+				s := strconv.Itoa(v)
+				a, e := strconv.Atoi(s)
+
+				return a, e, s
+			}},
+
+		// ---- json Marshal then Unmarshal for every scalar kind at its boundaries (generic and typed destination) ----
+		jsonScalarRow("int", "int", wrap1(intsOf[int](math.MinInt64, math.MaxInt64)), func(rng *rand.Rand, _ []any) any { return int(randInt64(rng)) },
+			func(b []byte) (error, any) { var v int; e := json.Unmarshal(b, &v); return e, v }),
+		jsonScalarRow("int32", "int32", wrap1(intsOf[int32](math.MinInt32, math.MaxInt32)), func(rng *rand.Rand, _ []any) any { return int32(randInt64(rng)) },
+			func(b []byte) (error, any) { var v int32; e := json.Unmarshal(b, &v); return e, v }),
+		jsonScalarRow("int64", "int64", wrap1(intsOf[int64](math.MinInt64, math.MaxInt64)), genInt64,
+			func(b []byte) (error, any) { var v int64; e := json.Unmarshal(b, &v); return e, v }),
+		jsonScalarRow("byte", "byte", wrap1(intsOf[uint8](0, 255)), func(rng *rand.Rand, _ []any) any { return byte(rng.Intn(256)) },
+			func(b []byte) (error, any) { var v uint8; e := json.Unmarshal(b, &v); return e, v }),
+		jsonScalarRow("int8", "int8", wrap1(intsOf[int8](math.MinInt8, math.MaxInt8)), func(rng *rand.Rand, _ []any) any { return int8(randInt64(rng)) },
+			func(b []byte) (error, any) { var v int8; e := json.Unmarshal(b, &v); return e, v }),
+		jsonScalarRow("int16", "int16", wrap1(intsOf[int16](math.MinInt16, math.MaxInt16)), func(rng *rand.Rand, _ []any) any { return int16(randInt64(rng)) },
+			func(b []byte) (error, any) { var v int16; e := json.Unmarshal(b, &v); return e, v }),
+		jsonScalarRow("float32", "float32", wrap1([]float32{0, 1, -1, 0.1, math.MaxFloat32, math.SmallestNonzeroFloat32, 16777216, 16777217, 1e-7, 1e21, float32(math.Inf(1)), float32(math.NaN())}),
+			func(rng *rand.Rand, _ []any) any { return float32(randFloat(rng)) },
+			func(b []byte) (error, any) { var v float32; e := json.Unmarshal(b, &v); return e, v }),
+		jsonScalarRow("float64", "float64", wrap1(floatBoundaries), genFloat,
+			func(b []byte) (error, any) { var v float64; e := json.Unmarshal(b, &v); return e, v }),
+		jsonScalarRow("string", "string", wrap1(stringBoundaries), func(rng *rand.Rand, _ []any) any { return randString(rng) },
+			func(b []byte) (error, any) { var v string; e := json.Unmarshal(b, &v); return e, v }),
+		jsonScalarRow("bool", "bool", [][]any{{true}, {false}}, genBool,
+			func(b []byte) (error, any) { var v bool; e := json.Unmarshal(b, &v); return e, v }),
 
 		// ---- json ----
 		row{Name: "json.Marshal", Go: func(v any) ([]byte, error) { return json.Marshal(v) }, Gens: []gen{genJSONValue(2)}, IgnoreErrValue: true,
@@ -760,4 +964,41 @@ func checkSprintf(args []any, outs []any, ego runResult) (string, string) {
 	}
 
 	return "", ""
+}
+
+// jsonScalarRow: b := Marshal(x); Unmarshal(b) into a generic destination and into a destination of x's own type.
+func jsonScalarRow(kind, egoType string, directed [][]any, g gen, typed func([]byte) (error, any)) row {
+	return row{Name: "json.Unmarshal/scalar-" + kind,
+		Snippet: "b, e := json.Marshal(a0)\nr0 := e\nr1 := string(b)\nvar g interface{}\nr2 := json.Unmarshal(b, &g)\nr3 := g\nvar t " + egoType + "\nr4 := json.Unmarshal(b, &t)\nr5 := t",
+		NRet:    6, Directed: directed, Gens: []gen{g}, IgnoreErrValue: true,
+		Go: func(x any) (error, string, error, any, error, any) {
+			b, e := json.Marshal(x)
+			if e != nil {
+				return e, "", fmt.Errorf("x"), nil, fmt.Errorf("x"), nil
+			}
+
+			var gv any
+
+			e2 := json.Unmarshal(b, &gv)
+			e3, tv := typed(b)
+
+			return nil, string(b), e2, gv, e3, tv
+		}}
+}
+
+// unroman reads a canonical numeral (the harness's own reference; subtractive pairs only as roman() writes them).
+func unroman(s string) int {
+	vals := map[byte]int{'I': 1, 'V': 5, 'X': 10, 'L': 50, 'C': 100, 'D': 500, 'M': 1000}
+	total := 0
+
+	for i := 0; i < len(s); i++ {
+		v := vals[s[i]]
+		if i+1 < len(s) && vals[s[i+1]] > v {
+			total -= v
+		} else {
+			total += v
+		}
+	}
+
+	return total
 }
